@@ -2,6 +2,7 @@ import Req.Client.DigestAuth
 import Req.Client.Rfc7616
 import Req.Lemmas.C20Quote
 import Req.Lemmas.C20Select
+import Req.Lemmas.C20Meaning
 /-!
 C20 — digest authentication, property theorems about the REPAIRED code (`Req.DigestAuth`,
 fixes/C20-5): part 1, from a parsed challenge to the verdict of the verifier, and the middleware.
@@ -333,5 +334,232 @@ theorem unsendable_refused (H : Alg → Bytes → Bytes) (user pass method uri :
   simp only [h401.1, h401.2, bne_self_eq_false, Bool.or_self, Bool.false_eq_true, if_false, hc]
   have hb : hdr.all isFieldByte = false := hbad
   cases b <;> simp [hb]
+
+/-! ### the challenge as written by the server: parse_faithful and the end-to-end form -/
+
+/-- **parse_faithful**: `parseChallenge` reads EVERY `WWW-Authenticate` value that is written
+according to RFC 7235 section 4.1 — any number of challenges of any schemes, each `scheme`,
+`scheme 1*SP token68` or `scheme 1*SP auth-param *( OWS "," OWS auth-param )`, parameters as
+`token BWS "=" BWS ( token / quoted-string )` with any quoted-pairs, commas and `=` inside
+quoted-strings, any SP/HTAB around the commas, empty list elements, scheme and parameter names in
+any case (`Elem`, `ElemW`, `ParamW`, `ValW` in `lean/Req/Lemmas/C20Tok.lean`) — as what it MEANS
+(`meaning`: the list of challenges with their parameters; a parameter name occurs once per
+challenge, a Digest challenge has no token68 and no charset other than UTF-8): the answer is the
+first Digest challenge of the meaning that can be answered (RFC 7616 section 3.7), else the error
+`pick` assigns. -/
+theorem parse_faithful (xs : List Elem) (hne : xs ≠ []) (hok : ∀ x ∈ xs, x.OK) (chs : List SChal)
+    (hm : meaning (xs.map (·.e)) = some chs) :
+    parseChallenge algOf (commaCat (xs.map Elem.render)) = pick algOf (chs.filterMap digestOf) := by
+  rw [parseChallenge_render algOf xs hne hok]
+  obtain ⟨st, hs, hr⟩ := absElems_meaning _ chs hm
+  simp only [hs, hr]
+
+/-- … and the same for a response with SEVERAL `WWW-Authenticate` field lines (joined with
+`", "` by `createDigestAuth`): the meaning is that of all elements of all lines in order. -/
+theorem parse_faithful_lines (ls : List (List Elem)) (hne : ls ≠ []) (hl : ∀ l ∈ ls, l ≠ [])
+    (hok : ∀ l ∈ ls, ∀ x ∈ l, x.OK) (chs : List SChal)
+    (hm : meaning (ls.flatten.map (·.e)) = some chs) :
+    parseChallenge algOf (commaJoin (ls.map lineRender)) = pick algOf (chs.filterMap digestOf) := by
+  rw [commaJoin_lines ls hne hl]
+  apply parse_faithful _ (joinLines_ne_nil ls hne hl) (joinLines_ok ls hok)
+  rw [joinLines_e]
+  exact hm
+
+/-- The parameter list of a Digest challenge says what the server means: realm and nonce are
+there, opaque and algorithm are there iff issued (and not empty), `qop` lists the offered
+options (comma separated, optional white space), userhash is `true` iff the server supports it.
+Every other parameter (domain, stale, charset, extensions) is free. -/
+structure Describes (ps : List (Bytes × Bytes)) (sc : Issued) : Prop where
+  realm : lastVal ps b!"realm" = some sc.realm
+  nonce : lastVal ps b!"nonce" = some sc.nonce
+  opaq : lastVal ps b!"opaque" = sc.opaq
+  opaqNe : sc.opaq ≠ some []
+  algorithm : lastVal ps b!"algorithm" = sc.algorithm
+  algorithmNe : sc.algorithm ≠ some []
+  qop : sc.qops = match lastVal ps b!"qop" with
+        | none => []
+        | some q => qopOptions q
+  userhash : sc.userhash = (lastVal ps b!"userhash" == some b!"true")
+
+theorem issuedOfC_challengeOfParams (ps : List (Bytes × Bytes)) (sc : Issued) (h : Describes ps sc) :
+    issuedOfC (challengeOfParams ps) = sc := by
+  have fr := field_foldl_pairs b!"realm" (by decide) ps {}
+  have fn := field_foldl_pairs b!"nonce" (by decide) ps {}
+  have fo := field_foldl_pairs b!"opaque" (by decide) ps {}
+  have fa := field_foldl_pairs b!"algorithm" (by decide) ps {}
+  have fq := field_foldl_pairs b!"qop" (by decide) ps {}
+  have fu := field_foldl_pairs b!"userhash" (by decide) ps {}
+  have er : (challengeOfParams ps).realm = sc.realm := by
+    have : (challengeOfParams ps).realm = field b!"realm" (challengeOfParams ps) := rfl
+    rw [this]; unfold challengeOfParams; rw [fr, h.realm]
+  have en : (challengeOfParams ps).nonce = sc.nonce := by
+    have : (challengeOfParams ps).nonce = field b!"nonce" (challengeOfParams ps) := rfl
+    rw [this]; unfold challengeOfParams; rw [fn, h.nonce]
+  have eo : (if (challengeOfParams ps).opaq.isEmpty then none else some (challengeOfParams ps).opaq) = sc.opaq := by
+    have : (challengeOfParams ps).opaq = field b!"opaque" (challengeOfParams ps) := rfl
+    rw [this]; unfold challengeOfParams; rw [fo, h.opaq]
+    cases ho : sc.opaq with
+    | none => rfl
+    | some v =>
+      have : v ≠ [] := fun e => h.opaqNe (by rw [ho, e])
+      cases v with
+      | nil => exact absurd rfl this
+      | cons _ _ => rfl
+  have ea : (if (challengeOfParams ps).algorithm.isEmpty then none else some (challengeOfParams ps).algorithm) =
+      sc.algorithm := by
+    have : (challengeOfParams ps).algorithm = field b!"algorithm" (challengeOfParams ps) := rfl
+    rw [this]; unfold challengeOfParams; rw [fa, h.algorithm]
+    cases ho : sc.algorithm with
+    | none => rfl
+    | some v =>
+      have : v ≠ [] := fun e => h.algorithmNe (by rw [ho, e])
+      cases v with
+      | nil => exact absurd rfl this
+      | cons _ _ => rfl
+  have eq : qopOptions (challengeOfParams ps).qop = sc.qops := by
+    have : (challengeOfParams ps).qop = field b!"qop" (challengeOfParams ps) := rfl
+    rw [this]; unfold challengeOfParams; rw [fq, h.qop]
+    cases hl : lastVal ps b!"qop" with
+    | none => rfl
+    | some q => rfl
+  have eu : ((challengeOfParams ps).userhash == b!"true") = sc.userhash := by
+    have : (challengeOfParams ps).userhash = field b!"userhash" (challengeOfParams ps) := rfl
+    rw [this]; unfold challengeOfParams; rw [fu, h.userhash]
+    cases hl : lastVal ps b!"userhash" with
+    | none => rfl
+    | some v => simp
+  unfold issuedOfC
+  rw [er, en, eo, ea, eq, eu]
+
+/-- a header that is a legal field value was made from values a field can carry -/
+theorem sendable_of_header (H : Alg → Bytes → Bytes) (c : Challenge) (user pass method uri : Bytes)
+    (rnd : Option Bytes) (hdr : Bytes)
+    (ha : authorize H algOf c { user, pass, method, uri } rnd = .ok hdr) (hall : hdr.all isText = true) :
+    Sendable c user uri := by
+  unfold authorize at ha
+  split at ha
+  · cases ha
+  · rename_i qop hsel
+    split at ha
+    · cases ha
+    · cases ha
+    · rename_i alg r halg
+      simp only [Except.ok.injEq] at ha
+      subst ha
+      have hq := quoted_values_of_header _ hall
+      refine ⟨?_, ?_, ?_, ?_, ?_⟩
+      · by_cases huh : (c.userhash == b!"true") = true
+        · exact Or.inl (eq_of_beq huh)
+        · right
+          have := hq ⟨b!"username", user, true⟩ (by simp [params, huh]) rfl
+          exact this
+      · exact hq ⟨b!"realm", c.realm, true⟩ (by simp [params]) rfl
+      · exact hq ⟨b!"nonce", c.nonce, true⟩ (by simp [params]) rfl
+      · exact hq ⟨b!"uri", uri, true⟩ (by simp [params]) rfl
+      · cases ho : c.opaq with
+        | nil => rfl
+        | cons o os =>
+          have := hq ⟨b!"opaque", c.opaq, true⟩ (by simp [params, ho]) rfl
+          rw [ho] at this
+          exact this
+
+/-- **digest_accepted_wire** — the END-TO-END form, with no exclusions. The verifier holds what
+the SERVER issued: for every hash function, every response with any number of
+`WWW-Authenticate` lines written in any way RFC 7235 allows (`Elem.OK`), every meaning of them
+(`meaning`), account, method, target and entropy: IF the middleware re-sends at all, then the
+challenge it answered is the FIRST Digest challenge of the response that can be answered, and the
+Authorization value is accepted by the RFC 7616 verifier holding what the parameters of THAT
+challenge describe (`Describes`). -/
+theorem digest_accepted_wire (H : Alg → Bytes → Bytes) (hH : ∀ a x, (H a x).all isText = true)
+    (ls : List (List Elem)) (hne : ls ≠ []) (hl : ∀ l ∈ ls, l ≠ []) (hok : ∀ l ∈ ls, ∀ x ∈ l, x.OK)
+    (chs : List SChal) (hm : meaning (ls.flatten.map (·.e)) = some chs)
+    (user pass method uri body : Bytes) (rnd : Option Bytes) (hdr : Bytes)
+    (ha : handle H algOf user pass method uri .none rnd
+      { err := false, status := 401, wwwAuth := ls.map lineRender } = .resend hdr none) :
+    ∃ ch ∈ chs, isDigest ch.scheme = true ∧
+      (chs.filterMap digestOf).find? (answerable algOf) = some (challengeOfParams ch.params) ∧
+      ∀ sc, Describes ch.params sc →
+        verify H specAlg { issued := sc, method, uri, user, pass, body } hdr = true := by
+  obtain ⟨_, _, _, _, hc, hall⟩ := body_resent_intact H user pass method uri .none rnd _ hdr none ha
+  unfold createDigestAuth at hc
+  simp only at hc
+  split at hc
+  · cases hc
+  · rw [parse_faithful_lines ls hne hl hok chs hm] at hc
+    cases hp : pick algOf (chs.filterMap digestOf) with
+    | error e => rw [hp] at hc; cases hc
+    | ok c =>
+      rw [hp] at hc
+      simp only at hc
+      have hfind := pick_ok hp
+      have hmem : c ∈ chs.filterMap digestOf := List.mem_of_find?_eq_some hfind
+      simp only [List.mem_filterMap] at hmem
+      obtain ⟨ch, hch, hd⟩ := hmem
+      unfold digestOf at hd
+      split at hd
+      · rename_i hdig
+        simp only [Option.some.injEq] at hd
+        subst hd
+        refine ⟨ch, hch, hdig, hfind, ?_⟩
+        intro sc hdesc
+        have hs := sendable_of_header H _ user pass method uri rnd hdr hc hall
+        have := digest_accepted H hH _ user pass method uri body rnd hdr hs hc
+        rw [issuedOfC_challengeOfParams ch.params sc hdesc] at this
+        exact this
+      · cases hd
+
+/-- A response whose Digest challenges cannot be answered (or that has none) is never answered:
+the outcome is an error. -/
+theorem unanswerable_errors (H : Alg → Bytes → Bytes)
+    (ls : List (List Elem)) (hne : ls ≠ []) (hl : ∀ l ∈ ls, l ≠ []) (hok : ∀ l ∈ ls, ∀ x ∈ l, x.OK)
+    (chs : List SChal) (hm : meaning (ls.flatten.map (·.e)) = some chs)
+    (hnone : (chs.filterMap digestOf).find? (answerable algOf) = none)
+    (user pass method uri : Bytes) (body : Body) (rnd : Option Bytes) :
+    ∃ e, handle H algOf user pass method uri body rnd
+      { err := false, status := 401, wwwAuth := ls.map lineRender } = .failed e := by
+  obtain ⟨e, he⟩ := pick_none (algOf' := algOf) hnone
+  have : ∃ e', createDigestAuth H algOf (ls.map lineRender) { user, pass, method, uri } rnd = .error e' := by
+    unfold createDigestAuth
+    simp only
+    split
+    · exact ⟨_, rfl⟩
+    · rw [parse_faithful_lines ls hne hl hok chs hm, he]
+      exact ⟨_, rfl⟩
+  obtain ⟨e', he'⟩ := this
+  exact ⟨e', malformed_challenge_errors H user pass method uri body rnd _ e' ⟨rfl, rfl⟩ he'⟩
+
+/-- Conversely, when the first answerable Digest challenge exists, entropy is available and the
+values can be carried by a header field, the request IS sent again (request without body). -/
+theorem supported_resent (H : Alg → Bytes → Bytes)
+    (ls : List (List Elem)) (hne : ls ≠ []) (hl : ∀ l ∈ ls, l ≠ []) (hok : ∀ l ∈ ls, ∀ x ∈ l, x.OK)
+    (chs : List SChal) (hm : meaning (ls.flatten.map (·.e)) = some chs) (c : Challenge)
+    (hfind : (chs.filterMap digestOf).find? (answerable algOf) = some c)
+    (user pass method uri r : Bytes) :
+    ∃ hdr, createDigestAuth H algOf (ls.map lineRender) { user, pass, method, uri } (some r) = .ok hdr ∧
+      (hdr.all isText = true →
+        handle H algOf user pass method uri .none (some r)
+          { err := false, status := 401, wwwAuth := ls.map lineRender } = .resend hdr none) := by
+  have hsup : Supported c := (supported_iff_answerable c).mpr (by
+    have := List.find?_some hfind
+    exact this)
+  obtain ⟨hdr, hauth⟩ := supported_answered H c { user, pass, method, uri } r hsup
+  have hparse := parse_faithful_lines ls hne hl hok chs hm
+  rw [pick_of_find hfind] at hparse
+  have hnonempty : (commaJoin (ls.map lineRender)).isEmpty = false := by
+    cases hj : commaJoin (ls.map lineRender) with
+    | cons _ _ => rfl
+    | nil =>
+      rw [hj] at hparse
+      have : parseChallenge algOf [] = .error .badChallenge := rfl
+      rw [this] at hparse
+      cases hparse
+  have hcreate : createDigestAuth H algOf (ls.map lineRender) { user, pass, method, uri } (some r) = .ok hdr := by
+    unfold createDigestAuth
+    simp only [hnonempty, Bool.false_eq_true, if_false, hparse, hauth]
+  refine ⟨hdr, hcreate, ?_⟩
+  intro hall
+  have hb : hdr.all isFieldByte = true := hall
+  unfold handle
+  simp [hcreate, hb]
 
 end Req.Props.C20
